@@ -67,7 +67,8 @@ PROPS = {
     "C06": dict(
         title="Lifecycle gating and monotonicity",
         lean=["LP.Props.C06gates", "LP.Props.C06stage", "LP.Props.C06run"],
-        profiles=[("timeline", ALL_VARIANTS), ("life", ALL_VARIANTS), ("deploy", ALL_VARIANTS)],
+        profiles=[("timeline", ALL_VARIANTS), ("life", ALL_VARIANTS), ("deploy", ALL_VARIANTS),
+                  ("chunks", ["nft"] + GUAR)],
         R={"st": [(ANY, STAGE_MSGS), ({"deploy"}, None)]},
         D={"cfg": ANY, "views": ANY},
     ),
@@ -170,7 +171,7 @@ PROPS = {
     "C20": dict(
         title="Events",
         lean=["LP.Props.C20", "LP.Props.C20frame"],
-        profiles=[("life", ALL_VARIANTS), ("chunks", ALL_VARIANTS)],
+        profiles=[("life", ALL_VARIANTS), ("chunks", ALL_VARIANTS), ("topup", GUAR)],
         R={"ev": ANY},
         D={},
     ),
